@@ -329,7 +329,7 @@ Definition remove_front (w : world) (h : id) (is_sub : id -> bool) : bool :=
 (* K04-front for the iterated removals of remove_from_file / remove_file, evaluated statically (conservative): some
    element of a named type has a SHORT-NAME element at a position other than the first.  In such a world a removal
    can bring a SHORT-NAME to the front; in a world without, no sequence of removals can (the items that remain keep
-   their order).  Real tables: only the mixed-content named types (ECUC-QUERY-EXPRESSION ...) admit it. *)
+   their order).  Real tables: only the mixed-content named types (ECUC-QUERY-EXPRESSION ...) allow it. *)
 Definition late_short_at (w : world) (i : id) : bool :=
   named_node w i &&
   match w_nodes w i with
